@@ -305,4 +305,129 @@ theorem memory_capacity_drops_by_k (sched : Sched) (n : NodeInfo) (hw : WFNode n
     exact tdiv_sub_mul hm hk1 hk2
   · rfl
 
+/-- the specification predicate evaluated by the oracle on the implementation's output
+    (`acceptOkB cap k accepted`) holds of the model -/
+theorem accept_spec (sched : Sched) (n : NodeInfo) (req0 req : Req)
+    (hv : req0.validate = .ok req) (k : Int) (hk1 : 1 ≤ k) (hk2 : k ≤ maxInt) :
+    acceptOkB (deployCapacity sched n req) k (calculateDeploy sched n k req0).isOk = true := by
+  have := capacity_is_max_accepted sched n req0 req hv k hk1 hk2
+  unfold acceptOkB
+  cases h : (calculateDeploy sched n k req0).isOk
+  · have : ¬ k ≤ deployCapacity sched n req := fun hle => by rw [this.2 hle] at h; cases h
+    simp [this]
+  · simp [this.1 h, hk1]
+
+theorem wrap64_id (x : Int) (h0 : 0 ≤ x) (h1 : x ≤ maxInt) : wrap64 x = x := by
+  unfold wrap64 maxInt at *
+  have : x % 18446744073709551616 = x := Int.emod_eq_of_lt h0 (by omega)
+  simp only [this]
+  split <;> omega
+
+theorem foldl_pluginTotal (l : List Int) (t : Int) (ht : 0 ≤ t) (hl : ∀ c ∈ l, 0 < c ∧ c ≤ maxInt)
+    (hfin : t = maxInt ∨ t + (l.filter (· ≠ maxInt)).sum < maxInt) :
+    l.foldl pluginTotalStep t = if t = maxInt ∨ maxInt ∈ l then maxInt else t + l.sum := by
+  induction l generalizing t with
+  | nil => simp
+  | cons c rest ih =>
+    have hc := hl c (by simp)
+    have hrest : ∀ x ∈ rest, 0 < x ∧ x ≤ maxInt := fun x hx => hl x (by simp [hx])
+    simp only [List.foldl_cons]
+    by_cases h1 : t = maxInt ∨ c = maxInt
+    · have hstep : pluginTotalStep t c = maxInt := by unfold pluginTotalStep; simp [h1]
+      rw [hstep, ih maxInt (by unfold maxInt; omega) hrest (Or.inl rfl)]
+      have : t = maxInt ∨ maxInt ∈ c :: rest := by
+        rcases h1 with h | h
+        · exact Or.inl h
+        · exact Or.inr (by simp [h])
+      rw [if_pos this]; simp
+    · have h1' : t ≠ maxInt ∧ c ≠ maxInt := by
+        constructor
+        · exact fun e => h1 (Or.inl e)
+        · exact fun e => h1 (Or.inr e)
+      have hsum : t + (c + (rest.filter (· ≠ maxInt)).sum) < maxInt := by
+        rcases hfin with h | h
+        · exact absurd h h1'.1
+        · simpa [List.filter_cons, h1'.2] using h
+      have hnn : 0 ≤ (rest.filter (· ≠ maxInt)).sum :=
+        sum_nonneg' _ (fun x hx => by have := (hrest x (List.mem_filter.1 hx).1).1; omega)
+      have hstep : pluginTotalStep t c = t + c := by
+        unfold pluginTotalStep; simp only [h1, if_false]
+        exact wrap64_id _ (by omega) (by omega)
+      rw [hstep, ih (t + c) (by omega) hrest (Or.inr (by omega))]
+      have e1 : ¬ t + c = maxInt := by omega
+      by_cases hm : maxInt ∈ rest
+      · have : t = maxInt ∨ maxInt ∈ c :: rest := Or.inr (by simp [hm])
+        simp [hm, this]
+      · have : ¬ (t = maxInt ∨ maxInt ∈ c :: rest) := by
+          rintro (h | h)
+          · exact h1'.1 h
+          · simp only [List.mem_cons] at h
+            rcases h with h | h
+            · exact h1'.2 h.symm
+            · exact hm h
+        simp only [e1, hm, or_self, if_false, this, List.sum_cons]; omega
+
+/-- The plugin's own total (as written: sticks at MaxInt, otherwise plain int64 addition) is
+    the saturating sum of the offered capacities as long as the finite capacities do not add up
+    to 2^63-1 or more (they are byte counts divided by a request: exabytes would be needed). -/
+theorem plugin_total_saturating (sched : Sched) (nodes : List (String × NodeInfo)) (req0 req : Req)
+    (hv : req0.validate = .ok req) (offered : List (String × Int)) (total : Int)
+    (h : pluginDeployCapacity sched nodes req0 = .ok (offered, total))
+    (hmax : ∀ p ∈ offered, p.2 ≤ maxInt)
+    (hfin : ((offered.map (·.2)).filter (· ≠ maxInt)).sum < maxInt) :
+    total = satSum (offered.map (·.2)) := by
+  have hpos := (zero_capacity_not_offered sched nodes req0 req hv offered total h).1
+  unfold pluginDeployCapacity at h
+  rw [hv] at h
+  simp only [Except.ok.injEq, Prod.mk.injEq] at h
+  obtain ⟨h1, h2⟩ := h
+  rw [← h2, h1]
+  have : offered.foldl (fun t x => pluginTotalStep t x.2) 0 = (offered.map (·.2)).foldl pluginTotalStep 0 := by
+    rw [List.foldl_map]
+  have hf : (fun (t : Int) (x : String × Int) => match x with | (_, c) => pluginTotalStep t c) = fun t x => pluginTotalStep t x.2 := by
+    funext t ⟨a, b⟩; rfl
+  rw [hf, this]
+  have hl : ∀ c ∈ offered.map (·.2), 0 < c ∧ c ≤ maxInt := by
+    intro c hc
+    rw [List.mem_map] at hc
+    obtain ⟨p, hp, rfl⟩ := hc
+    exact ⟨hpos p hp, hmax p hp⟩
+  rw [foldl_pluginTotal _ 0 (by omega) hl (Or.inr (by omega))]
+  have h0 : ¬ (0 : Int) = maxInt := by unfold maxInt; omega
+  unfold satSum
+  by_cases hm : maxInt ∈ offered.map (·.2)
+  · simp only [h0, hm, or_true, if_true]
+    -- one unlimited capacity and the others positive: the sum is at least MaxInt
+    have : maxInt ≤ (offered.map (·.2)).sum := by
+      have key : ∀ l : List Int, (∀ c ∈ l, 0 < c) → maxInt ∈ l → maxInt ≤ l.sum := by
+        intro l hl hm
+        induction l with
+        | nil => cases hm
+        | cons a rest ih =>
+          have hr := sum_nonneg' rest (fun x hx => by have := hl x (by simp [hx]); omega)
+          simp only [List.sum_cons]
+          rcases List.mem_cons.1 hm with e | e
+          · omega
+          · have := ih (fun x hx => hl x (by simp [hx])) e
+            have := hl a (by simp); omega
+      exact key _ (fun c hc => (hl c hc).1) hm
+    omega
+  · simp only [h0, hm, or_self, if_false, Int.zero_add]
+    have : ((offered.map (·.2)).filter (· ≠ maxInt)) = offered.map (·.2) := by
+      apply List.filter_eq_self.2
+      intro c hc
+      simp only [ne_eq, decide_eq_true_eq]
+      exact fun e => hm (e ▸ hc)
+    rw [this] at hfin
+    omega
+
+/-- the hypotheses are satisfiable: a 2-core node with 1000 bytes, 310 used, request of 100 bytes:
+    capacity 6, 6 accepted, 7 refused -/
+example : ∃ n req, WFNode n ∧ Valid n ∧ req.validate = .ok req ∧ deployCapacity (fun _ _ _ => []) n req = 6 ∧
+    (alloc (fun _ _ _ => []) [] n 6 req).isOk = true ∧ (alloc (fun _ _ _ => []) [] n 7 req).isOk = false := by
+  refine ⟨{ capacity := { cpu := 2 * nano, cpuMap := [("0", 100), ("1", 100)], memory := 1000 },
+            usage := { cpu := nano / 2, cpuMap := [("0", 50)], memory := 310 } },
+          { cpuRequest := nano / 2, memRequest := 100 }, ⟨by decide, by decide, by decide, by decide⟩, by decide, rfl,
+          by decide, by decide, by decide⟩
+
 end Eru.Props.C07
